@@ -42,7 +42,7 @@ def token_replay(hooks, mx):
     """deposit events are logged after the deposit, removal events before the removal: at every prefix of the log
     deposits - removals is at most the number of tokens in the channel, hence at most max"""
     cur = worst = 0
-    for ts, name, n, keys in hooks:
+    for ts, name, n, keys, gid in hooks:
         if name == "slots.deposited":
             cur += 1
         elif name == "slots.removing":
